@@ -5,6 +5,7 @@
 From Coq Require Import Reals Qreals.
 From V Require Import lib.Common lib.Layout lib.RLib gen.GridArith gen.Combinators model.PairTables model.Callable
                       proof.LayoutLemmas proof.C07Comb proof.C01.
+From V Require Import model.NumFormat proof.NumFormatProofs.
 Local Open Scope Q_scope.
 
 (* one block per potential, in the order given, headed by that potential's two species labels, then
@@ -72,6 +73,19 @@ Theorem c01_force_is_minus_gradient : forall (c : callable) (i : nat) (r : Q),
   sem_scale (if has_d c then SNeg else SNegNum) v a 0 = force (Q2R force_h) c (Q2R r).
 Proof. exact force_cell_is_force. Qed.
 Print Assumptions c01_force_is_minus_gradient.
+
+(* what the printed cells mean.  Every number of the table is printed with "%.8f"; the text of a cell reads back (sign, digits,
+   point, digits) as the value rounded to 8 decimals, ties to even: within half a unit of the last printed decimal of the binary
+   floating-point value (-1)^neg * m * 2^e the writer held; the rounding is monotone and exact on multiples of 1e-8 *)
+Theorem c01_cell_text : forall neg m e t, (0 <= m)%Z -> fmt_float F_8f neg m e = Some t ->
+  read_number t = Some (mkp neg (fixed_int 8 m e) 8 0).
+Proof. intros neg m e t Hm H. inversion H. apply (fmt_reads false 7 false 0 neg m e Hm). Qed.
+Theorem c01_cell_value : forall m e, (0 <= m)%Z -> let '(n, q) := frac m e in
+  (Z.abs (2 * fixed_int 8 m e * q - 2 * (n * 10 ^ 8)) <= q)%Z.
+Proof. exact (fixed_close 8). Qed.
+Theorem c01_cell_monotone : forall m1 m2 e, (0 <= m1 <= m2)%Z -> (fixed_int 8 m1 e <= fixed_int 8 m2 e)%Z.
+Proof. exact (fixed_monotone 8). Qed.
+Print Assumptions c01_cell_text.
 
 (* non-vacuity: a concrete two-potential table *)
 Example c01_example :
